@@ -83,8 +83,6 @@ PaySeqs == AmtSeqs(MaxPays, 0, MaxSum)
 \* varies them (shared sources, unsorted outpoints, repeated addresses)
 MkSps(a)  == [i \in 1..Len(a) |-> [src |-> i, idx |-> 0, amt |-> a[i], scr |-> 1]]
 MkPays(p) == [i \in 1..Len(p) |-> [to |-> i, amt |-> p[i]]]
-Requests == {[sps |-> MkSps(a), pays |-> MkPays(p), fee |-> f] :
-               a \in InSeqs, p \in PaySeqs, f \in 0..MaxFee}
 
 \* ------------------------------------------------------------ Deal machine
 VARIABLES req,     \* [sps, pays, fee]
